@@ -44,6 +44,7 @@ def shards(tier, seed):
     out.append(("child_prod_NIST192p", dict(kind="prod", cname="NIST192p", nvalid=3, lz=False, _pyopt="opt")))
     out.append(("child_prod_SECP112r2", dict(kind="prod", cname="SECP112r2", nvalid=3, lz=False, _pyopt="opt+hashseed")))
     out.append(("child_toy", dict(kind="toy", part=0, parts=4, pmax=19, ncurves=2, _pyopt="opt")))
+    out.append(("near_recursion_limit", dict(kind="near_limit")))
     return out
 
 
@@ -176,6 +177,8 @@ def all_containers(ctx, curve, dom, data, cls, key, enc, named):
 
 def run(ctx, name, kind, **kw):
     rng = ctx.rng
+    if kind == "near_limit":
+        return sigs.near_limit(ctx, rng, ["NIST224p", "NIST521p", "BRAINPOOLP384r1", "SECP112r2", "NIST256p"], ['load_public'])
     if kind == "prod":
         c = lib.BY_NAME[kw["cname"]]
         dom = lib.dom_of(c)
